@@ -497,6 +497,10 @@ val init_vars :
 
 val from_table : mclass -> table -> fmodel tres
 
+val from_dataframe_call : nat -> mclass -> table -> fmodel tres
+
+val cast_series : ndt -> series -> cell list tres
+
 val cell_of_ostr : char list option -> cell
 
 val all_some : 'a1 option list -> 'a1 list option
